@@ -393,6 +393,7 @@ def extra_tables(w, info):
     datetime_tables(w, info)
     numbers_tables(w, info)
     panic_inventory(w, info)
+    macro_arms(w, info)
 
 
 PANIC_FILES = [
@@ -427,6 +428,89 @@ def panic_inventory(w, info):
         w(f'  "{st}",')
     w("]")
     info["panicSites"] = sites
+
+
+def lean_str(s):
+    return '"' + s.replace("\\", "\\\\").replace('"', '\\"') + '"'
+
+
+def match_delim(src, i, op, cl):
+    """index of the delimiter closing src[i] == op (string-literal aware)"""
+    assert src[i] == op
+    depth = 0
+    j = i
+    while j < len(src):
+        c = src[j]
+        if c == '"':
+            j += 1
+            while j < len(src) and src[j] != '"':
+                j += 2 if src[j] == "\\" else 1
+        elif c == op:
+            depth += 1
+        elif c == cl:
+            depth -= 1
+            if depth == 0:
+                return j
+        j += 1
+    raise TranslateError(f"unbalanced {op}{cl}")
+
+
+def macro_arms(w, info):
+    """C19: the arms of `toml_internal!` in source order (pattern and expansion, blanks normalised), the `toml!`
+    macro and the helper functions the expansions call. Any edit breaks Gen/CheckMacro.lean until the model
+    (Model/Macro.lean) and its pinned copy (Model/MacroArms.lean) are reviewed."""
+    rel = "crates/toml/src/macros.rs"
+    src = strip_comments(read(rel))
+    norm = lambda t: " ".join(t.split())
+    m = re.search(r"macro_rules!\s*toml_internal\s*\{", src)
+    if not m:
+        raise TranslateError(f"{rel}: macro_rules! toml_internal not found")
+    i = m.end() - 1
+    j = match_delim(src, i, "{", "}")
+    body = src[i + 1:j]
+    arms = []
+    k = 0
+    while True:
+        while k < len(body) and body[k].isspace():
+            k += 1
+        if k >= len(body):
+            break
+        if body[k] != "(":
+            raise TranslateError(f"{rel}: toml_internal arm {len(arms)}: expected `(` at {body[k:k+30]!r}")
+        e = match_delim(body, k, "(", ")")
+        pat = body[k:e + 1]
+        k = e + 1
+        mm = re.match(r"\s*=>\s*", body[k:])
+        if not mm or body[k + mm.end():k + mm.end() + 1] != "{":
+            raise TranslateError(f"{rel}: toml_internal arm {len(arms)}: expected `=> {{`")
+        k += mm.end()
+        e = match_delim(body, k, "{", "}")
+        rhs = body[k:e + 1]
+        k = e + 1
+        mm = re.match(r"\s*;", body[k:])
+        if mm:
+            k += mm.end()
+        arms.append(norm(pat) + " => " + norm(rhs))
+    if not arms:
+        raise TranslateError(f"{rel}: toml_internal has no arms")
+    m = re.search(r"macro_rules!\s*toml\s*\{", src)
+    if not m:
+        raise TranslateError(f"{rel}: macro_rules! toml not found")
+    i = m.end() - 1
+    helpers = ["macro_rules! toml " + norm(src[i:match_delim(src, i, "{", "}") + 1])]
+    fns = re.findall(r"(?m)^(?:pub\s+)?fn\s+([a-z_0-9]+)", src)
+    for name in fns:
+        helpers.append(norm(find_fn(src, name, toplevel=True)))
+    w("/-- arms of `toml_internal!` (crates/toml/src/macros.rs) in source order: `pattern => expansion`, blanks normalised -/")
+    w("def macroArms : List String := [")
+    w(",\n".join("  " + lean_str(a) for a in arms))
+    w("]")
+    w("/-- the `toml!` macro and every function of macros.rs, blanks normalised -/")
+    w("def macroHelpers : List String := [")
+    w(",\n".join("  " + lean_str(a) for a in helpers))
+    w("]")
+    info["macroArms"] = arms
+    info["macroHelpers"] = helpers
 
 
 def numbers_tables(w, info):
